@@ -14,6 +14,8 @@ type FieldConverter struct {
 	argType  types.Type // The type of the converter's argument.
 	retType  types.Type // The type of the converter's return value.
 	retError bool       // Indicates whether the converter returns an error.
+
+	generated bool // Indicates whether the converter is a function generated in the same run.
 }
 
 // NewFieldConverter creates a new FieldConverter with the given parameters.
@@ -29,6 +31,16 @@ func (c *FieldConverter) Set(argType, retType types.Type, returnError bool) {
 	c.argType = argType
 	c.retType = retType
 	c.retError = returnError
+}
+
+// SetGenerated marks the converter as a function that is generated in the same run.
+func (c *FieldConverter) SetGenerated() {
+	c.generated = true
+}
+
+// Generated returns true if the converter is a function that is generated in the same run.
+func (c *FieldConverter) Generated() bool {
+	return c.generated
 }
 
 // Match returns true if the given source and destination field names match the FieldConverter's name matcher.
